@@ -238,6 +238,8 @@ def units(prop, tier):
         u('new', [C + 'new'], 12, None, {'key': 'bytes', 'msg': 'none'}, '[bad-block-size]')
         if not quick:
             u('new', [C + 'new'], 8)
+        # a clone must compute the standard's value too: copy() (fresh cache / CBC state, equal abstract state) also serves C03
+        u('copy', [m('copy')], 16)
     elif prop == 'C09':
         for bs in (16, 8):
             for b in (['bytes', 'bytearray', 'memoryview'] if not quick or bs == 16 else ['bytearray']):
